@@ -489,7 +489,7 @@ type scenario struct {
 }
 
 var strategies = []string{"honest", "attacker-key", "bitflip", "seq-plus", "seq-minus", "signed-seq-plus", "chain", "othermsg", "accnum",
-	"empty-sig", "feepayer-unsigned", "rewrap-fee", "multi-one-sig", "eth-forged-sender", "eth-feepayer-unsigned", "eth-wrong-nonce", "eth-wrong-chain", "eth-unprotected", "swap-slots"}
+	"empty-sig", "feepayer-unsigned", "rewrap-fee", "rewrap-append", "rewrap-prepend", "rewrap-replace", "rewrap-dup", "rewrap-reorder", "multi-one-sig", "eth-forged-sender", "eth-feepayer-unsigned", "eth-wrong-nonce", "eth-wrong-chain", "eth-unprotected", "swap-slots"}
 
 func (s scenario) label() string {
 	return fmt.Sprintf("%s:%s:%s:%s:%s", s.Msg, s.Mode, s.Acct, s.Attach, s.Strategy)
@@ -690,7 +690,7 @@ func (h *hist) build(sc scenario, r *hx.Rng, A, B *acctT, attacker *keyT, edKey 
 		ethChain = 1
 	case "eth-unprotected":
 		unprotected = true
-	case "swap-slots", "feepayer-unsigned", "rewrap-fee", "multi-one-sig":
+	case "swap-slots", "feepayer-unsigned", "rewrap-fee", "multi-one-sig", "rewrap-append", "rewrap-prepend", "rewrap-replace", "rewrap-dup", "rewrap-reorder":
 	default:
 		panic("strategy " + sc.Strategy)
 	}
@@ -931,7 +931,7 @@ func (h *hist) describe(p *txPlan, bz []byte) (string, []string) {
 			continue // the Ethereum path refuses a MultiSignatureData before looking at it
 		}
 		if s.mode == signing.SignMode_SIGN_MODE_DIRECT {
-			if len(p.msgs) == 1 {
+			if len(p.msgs) >= 1 { // (the digest is over the FIRST message; the model decides whether more are allowed)
 				if _, isEth := p.msgs[0].(*tokenstypes.MsgEthereumTx); !isEth {
 					d, err := eip712Digest(tx.GetMsgs()[0], acc.GetSequence(), ethChainID)
 					if err == nil {
@@ -1103,6 +1103,10 @@ func main() {
 		if sc.Msg == "ethereum_tx" && sc.Mode == "multi-amino" && sc.Strategy == "multi-one-sig" {
 			sc.Strategy = "honest" // (the SDK counts the member signatures before it asks for the amino bytes, which panic for this message)
 		}
+		if (sc.Strategy == "rewrap-replace" || sc.Strategy == "rewrap-reorder") && sc.Mode != "eip712" && sc.Mode != "raw-eth" &&
+			(sc.Msg == "bank_send" || sc.Msg == "identity" || sc.Msg == "any") {
+			sc.Msg, sc.TypeURL = "two_msgs", "" // the key-path modes can sign several messages: replace / reorder among them
+		}
 		h := newHist(nextID)
 		nextID++
 		tag := fmt.Sprintf("s%d-h%d-", seed, h.id)
@@ -1148,6 +1152,43 @@ func main() {
 			q2 := *p
 			q2.fee = 50 * feeOf(p)
 			q2.memo = p.memo + " re-wrapped"
+			p = &q2
+			bz, _, _ = h.encode(p)
+		}
+		if strings.HasPrefix(sc.Strategy, "rewrap-") && sc.Strategy != "rewrap-fee" {
+			// CheckTx sees the transaction as its signer made it; DeliverTx gets the SAME signature slots, fee and
+			// memo around a CHANGED message list (the extra message moves the signer's funds to the attacker)
+			t1, _ := h.describe(p, bz)
+			checkTxCoq = "(Some (" + t1 + "))"
+			extra := sdk.Msg(banktypes.NewMsgSend(A.addr, sdk.AccAddress(kX.caddr), sdk.NewCoins(sdk.NewInt64Coin(denom, 4242))))
+			old := p.msgs
+			var nm []sdk.Msg
+			switch sc.Strategy {
+			case "rewrap-append":
+				nm = append(append(nm, old...), extra)
+			case "rewrap-prepend":
+				nm = append([]sdk.Msg{extra}, old...)
+			case "rewrap-replace":
+				if len(old) >= 2 {
+					nm = append(append(nm, old[:len(old)-1]...), extra)
+				} else {
+					nm = append(append(nm, old...), extra)
+				}
+			case "rewrap-dup":
+				nm = append(append(nm, old...), old[0])
+			case "rewrap-reorder":
+				if len(old) >= 2 {
+					for j := len(old) - 1; j >= 0; j-- {
+						nm = append(nm, old[j])
+					}
+				} else {
+					nm = append([]sdk.Msg{extra}, old...)
+				}
+			default:
+				panic("strategy " + sc.Strategy)
+			}
+			q2 := *p
+			q2.msgs = nm
 			p = &q2
 			bz, _, _ = h.encode(p)
 		}
@@ -1258,6 +1299,9 @@ func main() {
 	probe1 := run(scenario{Msg: "ethereum_tx", Mode: "raw-eth", Attach: "none", Acct: "eth-onrecord", Strategy: "eth-forged-sender", Follow: "replay"})
 	probe2 := run(scenario{Msg: "ethereum_tx", Mode: "raw-eth", Attach: "none", Acct: "eth-onrecord", Strategy: "eth-feepayer-unsigned", Follow: "replay"})
 
+	probe3 := run(scenario{Msg: "bank_send", Mode: "eip712", Attach: "none", Acct: "eth-onrecord", Strategy: "rewrap-append", Follow: "replay"})
+	probe4 := run(scenario{Msg: "ethereum_tx", Mode: "raw-eth", Attach: "none", Acct: "eth-onrecord", Strategy: "rewrap-append", Follow: "replay"})
+
 	// ---- systematic part 1: honest transactions, every mode x account state x attached key
 	for _, m := range []string{"bank_send", "identity", "register_delegator", "ethereum_tx"} {
 		for _, md := range modes {
@@ -1335,6 +1379,18 @@ func main() {
 			run(scenario{Msg: m, Mode: md, Attach: "right", Acct: ac, Strategy: "rewrap-fee", Follow: "replay"})
 		}
 	}
+	// ---- systematic part 5b: the same signature slots around a changed MESSAGE LIST, every signing scheme x account state
+	for _, md := range []string{"direct", "amino", "eip712", "raw-eth", "multi-direct"} {
+		for _, ac := range acctsAll {
+			for _, st := range []string{"rewrap-append", "rewrap-prepend", "rewrap-replace", "rewrap-dup", "rewrap-reorder"} {
+				m := "bank_send"
+				if md == "raw-eth" {
+					m = "ethereum_tx"
+				}
+				run(scenario{Msg: m, Mode: md, Attach: "right", Acct: ac, Strategy: st, Follow: "replay"})
+			}
+		}
+	}
 	// ---- systematic part 6: multisig keys and MultiSignatureData
 	for _, md := range []string{"multi-direct", "multi-amino", "direct", "eip712"} {
 		for _, ac := range []string{"multisig-new", "multisig-onrecord", "onrecord", "eth-onrecord"} {
@@ -1371,7 +1427,8 @@ func main() {
 	}
 	flush()
 	forgedAccepted, unsignedPayerAccepted := firstAccepted[probe1], firstAccepted[probe2]
-	variant := fmt.Sprintf("(mkVariant %s %s)", hx.B(!forgedAccepted), hx.B(!unsignedPayerAccepted))
+	eipBatched, rawBatched := firstAccepted[probe3], firstAccepted[probe4]
+	variant := fmt.Sprintf("(mkVariant %s %s %s %s)", hx.B(!forgedAccepted), hx.B(!unsignedPayerAccepted), hx.B(!eipBatched), hx.B(!rawBatched))
 
 	pre := "(* written by /verif/harness/cmd/c02 -- observations of the real application (ABCI CheckTx / DeliverTx) *)\n" +
 		"From Sekai Require Import Base.Prelude Model.Auth Model.C02Check.\n" +
@@ -1380,6 +1437,7 @@ func main() {
 	out.WriteFile("cases.txt", strings.Join(coq, "\n")+"\n")
 	out.WriteJSON("meta.json", map[string]string{"case_type": "c02_case", "mismatch_fn": "c02_mismatches code_variant", "violation_fn": "c02_violations"})
 	out.WriteJSON("cases.json", js)
-	out.WriteJSON("dist.json", map[string]interface{}{"seed": seed, "histories": len(js), "by": dist, "message_types_used": len(catalogue), "message_types_skipped": catalogueSkipped, "code_variant": map[string]bool{"raw_eth_sender_checked": !forgedAccepted, "eth_path_continues_with_remaining_signers": !unsignedPayerAccepted}})
+	out.WriteJSON("dist.json", map[string]interface{}{"seed": seed, "histories": len(js), "by": dist, "message_types_used": len(catalogue), "message_types_skipped": catalogueSkipped, "code_variant": map[string]bool{"raw_eth_sender_checked": !forgedAccepted, "eth_path_continues_with_remaining_signers": !unsignedPayerAccepted,
+		"eip712_single_message_rule": !eipBatched, "raw_eth_single_message_rule": !rawBatched}})
 	fmt.Fprintf(os.Stderr, "c02: %d histories\n", len(js))
 }
